@@ -404,6 +404,48 @@ func outputTables(repo string) {
 	}
 	out.WriteString("\n")
 
+	// levelOfConcern, statement by statement: assignments and guarded returns in source order
+	{
+		fd := findFunc(f, "item", "levelOfConcern")
+		var rows []string
+		for _, st := range fd.Body.List {
+			switch t := st.(type) {
+			case *ast.AssignStmt:
+				var l, r []string
+				for _, x := range t.Lhs {
+					l = append(l, srcText(x))
+				}
+				for _, x := range t.Rhs {
+					r = append(r, srcText(x))
+				}
+				rows = append(rows, fmt.Sprintf("(%s, %s, %s)", q("let"), q(strings.Join(l, ", ")), q(strings.Join(r, ", "))))
+			case *ast.IfStmt:
+				if t.Init != nil || t.Else != nil || len(t.Body.List) != 1 {
+					die(t.Pos(), "levelOfConcern: unexpected if")
+				}
+				ret, ok := t.Body.List[0].(*ast.ReturnStmt)
+				if !ok {
+					die(t.Pos(), "levelOfConcern: if without return")
+				}
+				var r []string
+				for _, x := range ret.Results {
+					r = append(r, srcText(x))
+				}
+				rows = append(rows, fmt.Sprintf("(%s, %s, %s)", q("if"), q(srcText(t.Cond)), q(strings.Join(r, ", "))))
+			case *ast.ReturnStmt:
+				var r []string
+				for _, x := range t.Results {
+					r = append(r, srcText(x))
+				}
+				rows = append(rows, fmt.Sprintf("(%s, %s, %s)", q("return"), q(""), q(strings.Join(r, ", "))))
+			default:
+				die(st.Pos(), "levelOfConcern: unexpected statement")
+			}
+		}
+		fmt.Fprintf(&out, "/-- item.levelOfConcern, statement by statement: (kind, condition / left-hand side, result / right-hand side) -/\n")
+		fmt.Fprintf(&out, "def levelOfConcernFlow : List (String × String × String) := [%s]\n\n", strings.Join(rows, ",\n  "))
+	}
+
 	// JSON v2 item fields: json tags of the anonymous struct in item.MarshalJSON and what feeds them
 	mj := findFunc(f, "item", "MarshalJSON")
 	var tags []string
